@@ -267,6 +267,23 @@ def run_traced(spec, fault=None, gp_faults=None, predict_faults=None, ei_script=
             thr = float(np.asarray(getattr(self, "sufficient_improvement", 1.0)).reshape(-1)[0])
             tol = float(self.options["tol_fun"])
             wts = list(ei_script.get("weights", [3, 2, 3, 3]))
+            # an optional plan of phases [[n_calls, weights], ...] precedes the stationary weights (e.g. a run of successes at the mesh cap,
+            # then failures, then successes again)
+            k_ei = state.get("ei_k", 0)
+            state["ei_k"] = k_ei + 1
+            for ph in ei_script.get("plan", []):
+                n_ph = ph[0]
+                if k_ei < n_ph:
+                    # [n, weights] or [n, weights for search-step improvements, weights for poll-step (and other) improvements]
+                    if len(ph) == 2:
+                        wts = list(ph[1])
+                    elif state["phase"][-1] == "search":
+                        wts = list(ph[1])
+                    elif state["phase"][-1] == "poll":
+                        wts = list(ph[2])
+                    # (the stall tests of the main loop keep the stationary weights)
+                    break
+                k_ei -= n_ph
             wts += [1.5, 0.7, 0.7][: max(0, 7 - len(wts))]
             kind = ei_rng.choices(["big", "mid", "tiny", "neg", "tie", "above", "below"], weights=wts)[0]
             # "tie": exactly the sufficient-improvement threshold (success needs STRICTLY more); "above"/"below": one ulp either side
@@ -491,6 +508,9 @@ def _install_gp_wrappers(patch, state, ev, bb, gpt, es, gp_faults, update_faults
              "X": _rows(r[0]), "Y": _vec(r[1]), "S": None if r[2] is None else _vec(r[2]), "noise_flag": bool(fl.noise_flag),
              "logX": _rows(fl.X[:n]), "logY": _vec(fl.Y[:n]), "logS": _vec(fl.S[:n]) if fl.noise_flag else None,
              "phase": state["phase"][-1], "len_scale": _f(gp.temporary_data["len_scale"]), "x_max_idx": int(fl.X_max_idx)}
+        b_ = state.get("bads")
+        if b_ is not None and getattr(b_, "u_best", None) is not None:
+            e["u_best"] = _vec(b_.u_best)          # the incumbent the run holds at this moment (the selection's reference point must be it)
         ev.append(("NEIGH", e))
         return r
 
@@ -522,6 +542,7 @@ def _install_gp_wrappers(patch, state, ev, bb, gpt, es, gp_faults, update_faults
         e = {"x_new": _vec(x_new), "y_new": _f(y_new), "sd_new": _f(sd_new), "n_before": int(n0), "n_after": int(r.X.shape[0]),
              "last_X": _vec(r.X[-1]), "last_y": _f(r.y[-1]), "last_s2": None if r.s2 is None or np.size(r.s2) == 0 else _f(np.asarray(r.s2).reshape(-1)[-1]),
              "log_last_X": _vec(fl.X[fl.Xn]), "log_last_Y": _f(fl.Y[fl.Xn]), "log_last_S": _f(fl.S[fl.Xn]) if fl.noise_flag else None,
+             "log_last_n": int(np.asarray(fl.n_evals[fl.Xn]).reshape(-1)[0]),
              "specify": bool(options["specify_target_noise"]), "phase": state["phase"][-1]}
         ev.append(("GPADD", e))
         return r
